@@ -23,6 +23,13 @@ import re
 
 MASK = (1 << 64) - 1
 
+# optional instrumentation (tools/socks_stats.py): how often each completeness clause is really evaluated
+STATS = None
+
+
+def _n(key, k=1):
+    if STATS is not None: STATS[key] = STATS.get(key, 0) + k
+
 
 def stream_byte(stream, i):
     x = ((stream * 0x9E3779B97F4A7C15) & MASK) ^ ((i * 0xBF58476D1CE4E5B9 + 0x94D049BB133111EB) & MASK)
@@ -293,6 +300,7 @@ def _check(impl, scn):
         fails.append(("crash", T["crash"]))
     px = T["proxy"]
     if not px: return fails
+    _n("scenarios"); _n("scenarios_lossless" if not T["lossy"] else "scenarios_lossy")
     ver = px["ver"]
     pxips = T["nodes"].get(px["node"] or "", []) or ["10.0.1.1"]
     pxip = pxips[0]
@@ -346,6 +354,9 @@ def _check(impl, scn):
                         fails.append(("relay", "%s: no connection accepted at %s both received (a prefix of) the %d bytes the client sent after its request and sent what the client received" % (c.name, tep, len(payload))))
                     elif best is not None:
                         relay_peer = best[0]
+                        if complete_ok(T, c, relay_peer) and not c.unfinished:
+                            _n("eval relay complete client->target (CONNECT by %s)" % kind)
+                            if payload: _n("eval relay complete client->target, payload > 0 (CONNECT by %s)" % kind)
                         if complete_ok(T, c, relay_peer) and not c.unfinished and best[1] != len(payload):
                             fails.append(("relay", "%s -> %s: %d of %d bytes arrived at the target although nobody closed" % (c.name, relay_peer.name, best[1], len(payload))))
                         peer_expect = bytes(relay_peer.sent)
@@ -367,10 +378,11 @@ def _check(impl, scn):
                         if o.local and not T["nat"]:
                             lip, lport = o.local.rsplit(":", 1)
                             E += reply5(0, lip, int(lport)) if ver != 4 else reply4(90, lip, int(lport))
+                            _n("eval BIND second reply + relay content")
                             payload = S[g["used"]:]
                             ok, got, d = verify_chunks(o.rx, payload)
                             if not ok: fails.append(("relay", "%s -> %s (BIND): %s" % (c.name, o.name, d)))
-                            elif complete_ok(T, c, o) and got != len(payload):
+                            elif complete_ok(T, c, o) and _n("eval relay complete client->third party (BIND)") is None and got != len(payload):
                                 fails.append(("relay", "%s -> %s (BIND): %d of %d bytes arrived although nobody closed" % (c.name, o.name, got, len(payload))))
                             peer_expect = bytes(o.sent)
                         else:
@@ -392,19 +404,23 @@ def _check(impl, scn):
             elif T["lossy"]:
                 pass                      # a dropped SYN is never retried, a dropped segment only retransmitted when a later ACK arrives,
                                           # and the proxy closes right after a failure reply: completeness is not demanded on lossy paths
-            elif not c.closed and got < complete_replies and not T["crash"]:
+            elif _n("eval reply complete" if not c.closed else "skip reply complete (client closed)") is None and not c.closed and got < complete_replies and not T["crash"]:
                 fails.append(("reply", "%s (sent %s…): only %d of the %d reply bytes arrived by the end of the run" % (c.name, S[:24].hex(), got, complete_replies)))
             elif must_close and not c.closed and not T["crash"]:
+                _n("eval closure (%s)" % ("reject" if g["status"] == "reject" else "failure reply"))
                 if got > complete_replies:
                     fails.append(("closure", "%s: received %d bytes, more than the %d reply bytes" % (c.name, got, complete_replies)))
                 if c.rx_end != "eof":
                     fails.append(("closure", "%s (sent %s…): the proxy must disconnect this client, its read ended with %s" % (c.name, S[:24].hex(), c.rx_end)))
             elif relay_peer is not None and peer_expect is not None and complete_ok(T, c, relay_peer):
+                _n("eval relay complete peer->client (%s)" % ("BIND" if g["req"][0] == 2 else "CONNECT by " + g["req"][1]))
+                if peer_expect: _n("eval relay complete peer->client, bytes > 0 (%s)" % ("BIND" if g["req"][0] == 2 else "CONNECT by " + g["req"][1]))
                 if got != len(E):
                     fails.append(("relay", "%s <- %s: %d of %d bytes arrived at the client although nobody closed" % (c.name, relay_peer.name, got, len(E))))
     if T["counts"] is not None and not T["crash"]:
         # on a lossy path a request may never arrive (a segment dropped again and again, a dropped SYN): upper bound only
         lo = [0, 0, 0] if T["lossy"] else expect_counts
+        if not T["lossy"]: _n("eval counters lower bound")
         if any(not (lo[i] <= T["counts"][i] <= expect_counts[i] + maybe_counts[i]) for i in range(3)):
             fails.append(("counters", "cmd_counts() = %s, requests received: %s (+ at most %s from clients that closed on a lossy path)" % (T["counts"], expect_counts, maybe_counts)))
     fails += udp_check(T, px, pxip)
@@ -500,12 +516,14 @@ def udp_complete(T, px):
             got = sum(1 for (u, src, n, d, sm) in T["udp_rx"] if u == tu and src == relay)
             allrx = sum(1 for (u, src, n, d, sm) in T["udp_rx"] if u == tu)
             pending = T["udp_recvs"].get(tu, 0) - allrx
+            _n("eval udp delivery client->target (datagrams)", cnt); _n("eval udp delivery client->target (associations)")
             if got < cnt and pending > 0:
                 fails.append(("udp", "%s received %d of the %d well-formed datagrams the client sent it through the relay %s, and is still waiting" % (tu, got, cnt, relay)))
         # replies
         back = sum(1 for (u, ep, d, ts) in T["udp_sent"] if u != cu and ep == relay and ts > t_reply and d is not None and len(d) > 0 and u not in T["udp_closed"])
         gotb = sum(1 for (u, src, n, d, sm) in T["udp_rx"] if u == cu and src == relay)
         allb = sum(1 for (u, src, n, d, sm) in T["udp_rx"] if u == cu)
+        if back: _n("eval udp delivery target->client (datagrams)", back)
         if gotb < back and T["udp_recvs"].get(cu, 0) - allb > 0:
             fails.append(("udp", "the client's socket %s received %d of the %d datagrams sent to the relay %s by others, and is still waiting" % (cu, gotb, back, relay)))
     return fails
